@@ -505,6 +505,44 @@ def _s5_jointypes(program, res):
         res.ok("C03-S5", f"Polars: {jt} -> {recv}.join(how={how!r}, left_on={lo}, right_on={ro})")
 
 
+def _s7_sibling_returns(program, res):
+    """PandasModelBase and PolarsModel implement one interface.  Where the Pandas method hands back a value on every path, a Polars sibling
+    that can run off its end hands back None for those inputs (cross-check of siblings; the reference is the other implementation)."""
+    from .. import cfg as cfgmod
+    pd_cls = program.cls("pandas_base", "PandasModelBase")
+    pl_cls = program.cls("polars_model", "PolarsModel")
+
+    def falls_off(m) -> bool:
+        g = cfgmod.build(m.node)
+        live = g.live_nodes()
+        fall = [n for n in g.nodes if n.kind == "falloff"]
+        preds_live = any(n.id in live for n in fall)
+        # an explicit bare `return` counts as well
+        bare = any(n.kind == "return" and n.stmt.value is None and n.id in live for n in g.nodes)
+        return preds_live or bare
+
+    def returns_values(m) -> bool:
+        return any(isinstance(r, ast.Return) and r.value is not None for r in ast.walk(m.node))
+
+    n = 0
+    for name, pm in sorted(pd_cls.methods.items()):
+        lm = pl_cls.methods.get(name)
+        if lm is None or name.startswith("__"):
+            continue
+        if not returns_values(pm) or falls_off(pm):
+            continue  # the Pandas method is itself a procedure (or partial): no reference
+        n += 1
+        res.analysed(lm)
+        if falls_off(lm):
+            res.fail_at("C03-S7", lm, f"sibling-falls-off:{name}",
+                        f"PandasModelBase.{name} returns a value on every path; PolarsModel.{name} can run off its end and return None "
+                        f"(an expression statement where a `return` was meant): callers written against the Pandas model get None on Polars")
+        else:
+            res.ok("C03-S7", f"{name}: both data models return a value on every path")
+    if n < 10:
+        raise AnalysisError(f"C03-S7: only {n} sibling methods with a value-returning Pandas reference found")
+
+
 def run(program, res, tier):
     res.rule("C03-S1", "every node kind has a Polars step that refuses other kinds")
     res.rule("C03-S2", "expression lookup: found in an implementation table or raise")
@@ -524,3 +562,5 @@ def run(program, res, tier):
     c16.polars_join_guard_rule(program, Relabel(res, {"*": "C03-S5"}), rule="C03-S5")
     c16.polars_full_join_keys_rule(program, Relabel(res, {"*": "C03-S5"}), rule="C03-S5")
     c08._s2(program, Relabel(res, {"*": "C03-S6"}))
+    res.rule("C03-S7", "sibling methods of the two data models agree on returning a value")
+    _s7_sibling_returns(program, res)
